@@ -150,6 +150,15 @@ func fmtData(m map[string]string) string {
 	return b.String()
 }
 
+func sortedKeys(m map[string]string) []string {
+	ks := make([]string, 0, len(m))
+	for k := range m {
+		ks = append(ks, k)
+	}
+	sort.Strings(ks)
+	return ks
+}
+
 func sameData(a, b map[string]string) bool {
 	if len(a) != len(b) {
 		return false
@@ -455,8 +464,9 @@ func (w *world) victimIntact(before string, legit map[simkube.ObjKey]bool) {
 		if k.Name == "victim-conn" || legit[k] {
 			continue
 		}
-		for dk, dv := range dataOf(o) {
-			if strings.HasPrefix(dv, "victim-") {
+		od := dataOf(o)
+		for _, dk := range sortedKeys(od) {
+			if dv := od[dk]; strings.HasPrefix(dv, "victim-") {
 				w.r.Failf("victim-secret/leaked", "value %q of the victim's secret (controlled by another UID) appears in %s key %q", dv, k, dk)
 			}
 		}
@@ -541,7 +551,8 @@ func (w *world) checkXRSecret(before *unstructured.Unstructured, produced map[st
 		r.Failf("xr-secret/wrong-type", "created connection secret has type %q", typeOf(after))
 	}
 	got := dataOf(after)
-	for k, v := range want {
+	for _, k := range sortedKeys(want) {
+		v := want[k]
 		gv, ok := got[k]
 		if !ok {
 			r.Failf("xr-secret/missing-key/filter="+w.fname, "key %q was produced for this XR and is allowed by the XRD (filter %v) but is missing: produced %s, secret %s", k, w.filter, fmtData(produced), fmtData(got))
@@ -550,7 +561,8 @@ func (w *world) checkXRSecret(before *unstructured.Unstructured, produced map[st
 			r.Failf("xr-secret/wrong-value", "key %q = %q, but the composition produced %q for this XR (secret %s, pre-existing %s)", k, gv, v, fmtData(got), fmtData(pre))
 		}
 	}
-	for k, gv := range got {
+	for _, k := range sortedKeys(got) {
+		gv := got[k]
 		if _, ok := want[k]; ok {
 			continue
 		}
@@ -593,7 +605,8 @@ func producedFromMask(mask int) map[string]string {
 	return p
 }
 
-// pipelineFn returns produced as the desired composite connection details. It
+// pipelineFn returns the keys of produced as the desired composite connection
+// details (for XR xr1 the values are exactly those of produced). It
 // deliberately ignores the observed details (which the composer reads from
 // whatever secret the XR points at).
 func pipelineFn(produced map[string]string, seenObserved *map[string]string) xrh.FunctionRunner {
@@ -606,9 +619,12 @@ func pipelineFn(produced map[string]string, seenObserved *map[string]string) xrh
 			*seenObserved = m
 		}
 		xs, _ := structpb.NewStruct(map[string]any{"status": map[string]any{"out": "v"}})
+		// The value of a key is derived from the XR the function is called
+		// for ("<xr name>-<key>"), so details of different XRs differ.
+		name := req.GetObserved().GetComposite().GetResource().GetFields()["metadata"].GetStructValue().GetFields()["name"].GetStringValue()
 		cd := map[string][]byte{}
-		for k, v := range produced {
-			cd[k] = []byte(v)
+		for k := range produced {
+			cd[k] = []byte(name + "-" + k)
 		}
 		return &fnv1.RunFunctionResponse{
 			Context: req.GetContext(),
@@ -631,12 +647,33 @@ func pubPipelineBody(r *explore.Run, rep *report.R, sc string) {
 	seedPre(w.s, w.dest.Namespace, w.dest.Name, class, preDatas[pd], xrOwner, victimOwner)
 	r.Logf("produced=%s filter=%s asks=%d pre=%s predata=%s", fmtData(produced), w.fname, asks, preNames[class], fmtData(preDatas[pd]))
 
+	// A second XR of the same kind, reconciled first by the same reconciler:
+	// its details must never show up in xr1's secret, nor xr1's in its.
+	xr2 := xrh.XR("xr2", "comp")
+	xr2.SetUID("xr2-uid")
+	xr2.SetWriteConnectionSecretToReference(&xpv1.SecretReference{Name: "xr2-conn", Namespace: sysNS})
+	w.s.Seed(xr2)
+	w.settleOrFail("xr", w.xrec, types.NamespacedName{Name: "xr2"})
+	xr2Secret := w.s.Peek(secKey(sysNS, "xr2-conn"))
+	want2 := map[string]string{}
+	for k := range produced {
+		if allowed(w.filter, k) {
+			want2[k] = "xr2-" + k
+		}
+	}
+	if xr2Secret == nil || ctrlUID(xr2Secret) != "xr2-uid" || !sameData(dataOf(xr2Secret), want2) {
+		r.Failf("xr-secret/second-xr-differs-from-reference", "XR xr2's secret is %s (controller %q), reference %s", fmtData(dataOf(xr2Secret)), ctrlUID(xr2Secret), fmtData(want2))
+	}
+
 	before := w.s.Peek(w.dest)
 	victim := whole(w.s.Peek(secKey(sysNS, "victim-conn")))
 	logFrom, evFrom := len(w.s.Log), len(w.evs)
 	w.settleOrFail("xr", w.xrec, xrNN)
 	obs := w.checkXRSecret(before, produced, true, evFrom, logFrom)
 	w.steady("xr", w.xrec, xrNN, w.dest, xrh.XRKey(xrName), 2)
+	if got := whole(w.s.Peek(secKey(sysNS, "xr2-conn"))); got != whole(xr2Secret) {
+		r.Failf("xr-secret/other-xr-secret-touched", "reconciling xr1 changed xr2's secret: %s -> %s", whole(xr2Secret), got)
+	}
 	legit := map[simkube.ObjKey]bool{}
 	if class == preOther {
 		legit[w.dest] = true // the pre-existing secret is itself a victim-owned secret
@@ -748,14 +785,13 @@ func pubPTBody(r *explore.Run, rep *report.R, sc string, twoRes bool) {
 		oc = r.Free(nCD, "cfg-c@r1")
 	}
 	fi := r.Free(3, "filter")
-	// The quick tier leaves "XR does not ask" and "controlled by another UID"
-	// to the pipeline family (the publisher is the same code for both modes).
+	// The quick tier leaves "XR does not ask" and the pre-existing secrets to
+	// the pipeline family (the publisher is the same code for both modes); its
+	// two-phase history still publishes into a secret the XR already controls.
 	asks, class := 1, preAbsent
 	if twoRes {
 		asks = 1 - r.Free(2, "asks")
 		class = []int{preAbsent, preOwned, preOther}[r.Free(3, "pre")]
-	} else {
-		class = []int{preAbsent, preOwned}[r.Free(2, "pre")]
 	}
 	// late: the composed resources' secrets appear only after a first
 	// quiescence (two publishing phases). The quick tier runs only this
@@ -820,7 +856,7 @@ func pubPTBody(r *explore.Run, rep *report.R, sc string, twoRes bool) {
 		}})
 	}
 	w := newWorld(r, fi, asks, xrh.ResourcesComposition("comp", ts...), pipelineFn(nil, nil), false)
-	seedPre(w.s, w.dest.Namespace, w.dest.Name, class, map[string]string{"b": "old-b"}, xrOwner, victimOwner)
+	seedPre(w.s, w.dest.Namespace, w.dest.Name, class, map[string]string{"a": "old-a"}, xrOwner, victimOwner)
 	seedComposed := func() {
 		w.s.Seed(mkSecret(sysNS, "r0-conn", connType, nil, r0Secret))
 		if twoRes {
@@ -967,15 +1003,14 @@ func (w *world) checkClaim(crec reconcile.Reconciler, claimAsks bool, tag string
 
 	w.settleOrFail("claim", crec, cmNN)
 
-	for k, v := range w.secretsSnapshot(dst) {
-		if others[k] != v {
-			r.Failf("claim/touched-foreign-secret", "%s: the claim reconciler changed secret %s: %s -> %s", tag, k, others[k], v)
+	now := w.secretsSnapshot(dst)
+	for _, o := range w.s.All(secKey("", "").GK()) {
+		if k := simkube.KeyOf(o); k != dst && others[k] != now[k] {
+			r.Failf("claim/touched-foreign-secret", "%s: the claim reconciler changed secret %s: %s -> %s", tag, k, others[k], now[k])
 		}
 	}
-	for k := range others {
-		if w.s.Peek(k) == nil {
-			r.Failf("claim/touched-foreign-secret", "%s: the claim reconciler deleted secret %s", tag, k)
-		}
+	if len(now) != len(others) {
+		r.Failf("claim/touched-foreign-secret", "%s: the claim reconciler created or deleted secrets other than its own: before %d, after %d", tag, len(others), len(now))
 	}
 	after := w.s.Peek(dst)
 	srcClass := "absent"
@@ -1246,8 +1281,8 @@ func TestCheck(t *testing.T) {
 	rep := report.New("C09", "exploration")
 	rep.Meta(
 		"Four scenario families, each case built from free choices and run on the real XR reconciler (production options from the XRD reconciler: XRD connectionSecretKeys -> APIFilteredSecretPublisher) and the real claim reconciler (client-side and server-side-apply syncers, APIConnectionPropagator) over simkube, in virtual time (one minute between reconciles). "+
-			"(1) publish/pipeline: produced details = every subset of {a,b,c} returned by a scripted function x XRD filter {unset, [a], [a,z], []} x XR asks {no, spec.writeConnectionSecretToRef, defaulted from the composition's writeConnectionSecretsToNamespace} x secret already at the destination {absent, uncontrolled connection type, uncontrolled Opaque, controlled by the XR, controlled by another UID} x its data {none, {a}, {b}}. "+
-			"(2) publish/pt: per XR key a,b (and c on a second composed resource in the thorough tier) one template connectionDetails config of {none, FromConnectionSecretKey present/missing, FromFieldPath string/missing/number, FromValue} x one extra config {none, unnamed secret key present/missing, unnamed value, unnamed field path, inferred type value, inferred precedence} x filter x asks x pre-existing secret {absent, controlled by the XR, controlled by another UID} x composed resources' secrets present from the start or appearing later; the reference extraction is written from the ConnectionDetail API documentation. "+
+			"(1) publish/pipeline: produced details = every subset of {a,b,c} returned by a scripted function x XRD filter {unset, [a], [a,z], []} x XR asks {no, spec.writeConnectionSecretToRef, defaulted from the composition's writeConnectionSecretsToNamespace} x secret already at the destination {absent, uncontrolled connection type, uncontrolled Opaque, controlled by the XR, controlled by another UID} x its data {none, {a}, {b}}; a second XR of the same kind (values derived from the XR name) is reconciled by the same reconciler first. "+
+			"(2) publish/pt: per XR key a,b (and c on a second composed resource in the thorough tier) one template connectionDetails config of {none, FromConnectionSecretKey present/missing, FromFieldPath string/missing/number, FromValue} x one extra config {none, unnamed secret key present/missing, unnamed value, unnamed field path, inferred type value, inferred precedence} x filter {unset, [a], [a,z]} x (thorough tier: asks x pre-existing secret {absent, controlled by the XR with {a}, controlled by another UID} x composed resources' secrets present from the start or appearing after a first quiescence; quick tier: XR asks, no pre-existing secret, secrets appear after a first quiescence); the reference extraction is written from the ConnectionDetail API documentation. "+
 			"(3) claim: after the XR is Ready, source situation {owned, deleted, controller stripped, controller replaced, XR spec repointed at a victim's / an Opaque / an uncontrolled connection secret, XR does not ask, XR never Ready} x XR reconciles again or not x claim asks or not x destination {absent, uncontrolled connection, uncontrolled Opaque, controlled by the claim, controlled by another UID} x syncer x produced x filter; oracle is a function of the stored state before the claim reconciles; evaluated after the first claim quiescence and again after joint XR+claim quiescence. "+
 			"(4) fault: one API fault (error-before, conflict, error-after, crash-before, crash-after; reads too) at every API call of three XR reconciles and two claim reconciles, then fault-free to joint quiescence; final secrets compared with the reference. "+
 			"Every case ends with steady-state reconciles that must not write either secret (write log) nor move status.connectionDetails.lastPublishedTime. A victim secret controlled by another UID is present in every world and must stay byte-identical and unleaked. "+
